@@ -14,6 +14,21 @@ Three streams of cases:
             send_message before code / key / verification / after).  Oracle = the property sentence.  The
             observed arrival order is also replayed through the model's ``Pipe`` and reorder buffer.
 * ``exh``   (thorough) exhaustive: 3 messages x all delivery orders x one drop point x all replay orders.
+* ``mcomp`` / multi-wormhole ``e2e``: the property quantifies over pairs of wormholes, not over processes — SEVERAL real
+            wormholes live in ONE process (the two ends of a pair, and several pairs: 2, 4 or 6 clients in one World).
+            ``mcomp``: 2-3 real clients fed numbered phases and dilate seqnums out of order, the feeding interleaved
+            across the clients, against the model's process (`proc` / `at <i> …`, `Props.C03.process_isolation`).
+            ``e2e`` with ``len(deleg) > 2`` and the ``cross`` family (`hand` op: the server hands one stored message of the
+            peer to one client, overtaking whatever else is queued): numbered phases and dilate-N phases are delivered
+            reordered and interleaved across all clients, so that a number is held in one buffer while the cursor of
+            another buffer of the process (the other wormhole, the other pair, the dilate stream of the same wormhole)
+            reaches it.  Oracle: each application receives exactly a prefix of what ITS peer sent — nothing of anybody
+            else's, nothing of its own, nothing of the other stream (`foreign-record:*`).
+
+Observation is through public behaviour (arguments of `W.received` / `D.received_dilate`, delegate callbacks,
+get_message() results, frames on the wire).  The per-step correspondence additionally shows the Boss's private reorder
+buffers when they have HEAD's shape; when they do not (a refactoring), the view falls back to what behaviour alone
+determines (`RxView`) and the oracle runs all the same (tag `…:observe=behaviour-only`).
 """
 import itertools
 import os
@@ -24,11 +39,12 @@ from twisted.python import failure
 
 from wormhole._key import derive_phase_key, encrypt_data, decrypt_data, CryptoError
 from wormhole.errors import ServerError, WelcomeError
+from wormhole.util import bytes_to_dict
 
 from .. import LOGGED
 from ..core import Result
 from ..util import automat_state
-from ..worlds.mailbox import World
+from ..worlds.mailbox import World, Client as WorldClient
 
 ID = "C03"
 PROP_MODULES = ["WV.Props.C03"]
@@ -47,10 +63,16 @@ TRUSTED = [
     "Python `\\d` / int() on non-ASCII digits in phase names (outside the model; phases are produced by '%d')",
     "the mailbox server and the network are the harness World (real wormhole_mailbox_server objects + scheduler)",
     "delegate / Deferred callbacks of the application do not raise",
+    "several wormholes in one process: in the model every wormhole is a value of its own (process_isolation, "
+    "e2e_prefix_process); that the real objects share nothing is WV.Props.Common.instances_do_not_share_state "
+    "(syntactic: class-level / attrs-default containers mutated through self) plus the differential runs of the "
+    "`proc`/`at` lines and the whole-client oracle on 2-6 real wormholes created in one process",
 ]
 RULE = ("comp: random op sequences over the 12 driver ops on one real client (structured: honest key/pake/phase "
         "flows with duplicates, replays, reconnects; adversarial: wrong labels, corrupt bodies, illegal orders); "
         "e2e: two real clients, <= 8 messages each way, sizes 0..70 kB, schedules with reorder/dup/drop/re-open; "
+        "mcomp / multi-pair e2e / cross: 2-6 real wormholes in one process, numbered and dilate-N phases handed over "
+        "out of order and interleaved across the wormholes (random; thorough: all 720 global hand-over orders of 2+1 records each way); "
         "non-trivial = at least one message delivered or one exception/ignored branch; distinct = distinct "
         "canonical output traces")
 
@@ -77,6 +99,110 @@ def toy_seal(side, phase, m):
     p = phase.encode("utf8")
     pre = bytes([len(s) % 256]) + s + bytes([len(p) % 256]) + p + m
     return pre + bytes([sum(pre) % 251])
+
+
+# --------------------------------------------------------------------------- observing the strict-order buffers
+#
+# The per-step correspondence shows `_next_rx_phase` / `_rx_phases` (and the dilate twins) next to the model's buffers.
+# Those are private attributes: when a Boss no longer has them in HEAD's shape (a refactoring, e.g. the loop factored
+# into a helper object) the harness must still run — the oracle only needs public behaviour — so the view then falls
+# back to what the behaviour alone determines: `next` = number of records handed on so far, `buf` = numbers that arrived
+# (in arrival order) and have not been handed on.  For an implementation that keeps the property both views coincide.
+
+def rx_private(b):
+    """(next, keys, dnext, dkeys) from HEAD-shaped private state, or None when the Boss does not have it in that shape"""
+    try:
+        n, d, dn, dd = b._next_rx_phase, b._rx_phases, b._next_rx_dilate_seqnum, b._rx_dilate_seqnums
+        if type(n) is int and type(dn) is int and isinstance(d, dict) and isinstance(dd, dict):
+            return n, list(d.keys()), dn, list(dd.keys())
+    except Exception:
+        pass
+    return None
+
+
+class RxShadow:
+    def __init__(self):
+        self.next = 0
+        self.keys = []
+
+    def arrived(self, n, ndelivered, accepted=True):
+        if accepted and n not in self.keys:
+            self.keys.append(n)
+        for _ in range(ndelivered):
+            if self.next in self.keys:
+                self.keys.remove(self.next)
+            self.next += 1
+
+
+class RxView:
+    """wraps `Boss._got_phase` / `_got_dilate` of one real Boss (instance attributes; when they exist) and keeps the
+    behaviour-only shadow; `delivered(kind)` is called by whoever records W.received / D.received_dilate"""
+
+    def __init__(self, boss, before=None, after=None):
+        self.b = boss
+        self.shadow = {"rx": RxShadow(), "drx": RxShadow()}
+        self.count = {"rx": 0, "drx": 0}
+        self.before = before
+        self.after = after
+        self.behaviour_only = False
+        self.wrapped = False
+        for kind, name in (("rx", "_got_phase"), ("drx", "_got_dilate")):
+            orig = getattr(boss, name, None)
+            if orig is None:
+                continue
+            try:
+                setattr(boss, name, self._wrap(kind, orig))
+                self.wrapped = True
+            except Exception:
+                pass
+
+    def delivered(self, kind):
+        self.count[kind] += 1
+
+    def _wrap(self, kind, orig):
+        def f(n, pt):
+            try:
+                st0 = automat_state(self.b)
+            except Exception:
+                st0 = "?"
+            c0 = self.count[kind]
+            ok = False
+            try:
+                tok = self.before() if self.before is not None else None
+            except Exception:
+                tok = None
+            try:
+                r = orig(n, pt)
+                ok = True
+                return r
+            finally:
+                # observation only: must never raise into the real call
+                try:
+                    self.shadow[kind].arrived(n, self.count[kind] - c0, accepted=ok and st0 in ("S2_happy", "?"))
+                    if self.after is not None and tok is not None:
+                        self.after(kind, n, pt, st0, tok)
+                except Exception:
+                    pass
+        return f
+
+    def view(self):
+        p = rx_private(self.b)
+        if p is not None:
+            return p
+        self.behaviour_only = True
+        return (self.shadow["rx"].next, list(self.shadow["rx"].keys),
+                self.shadow["drx"].next, list(self.shadow["drx"].keys))
+
+    def parked(self):
+        return bool(self.view()[1])
+
+
+def peek(f, default="?"):
+    """a private attribute for the state digest; unreadable = `?` (the correspondence then disagrees, the run goes on)"""
+    try:
+        return f()
+    except Exception:
+        return default
 
 
 # --------------------------------------------------------------------------- component world
@@ -124,6 +250,7 @@ class _K:
 
 class _D:
     _manager = None
+    view = None
 
     def __init__(self, log):
         self.log = log
@@ -133,6 +260,8 @@ class _D:
 
     def received_dilate(self, pt):
         self.log.append(("dilate", pt))
+        if self.view is not None:
+            self.view.delivered("drx")
 
     def got_wormhole_versions(self, v):
         self.log.append(("dversions",))
@@ -164,8 +293,12 @@ class _W:
         self.log.append(("versions",))
         self.real.got_versions(v)
 
+    view = None
+
     def received(self, pt):
         self.log.append(("received", pt))
+        if self.view is not None:
+            self.view.delivered("rx")
         self.real.received(pt)
 
     def closed(self, result):
@@ -173,11 +306,29 @@ class _W:
         self.real.closed(result)
 
 
+class _OwnClock:
+    def __init__(self):
+        from twisted.internet.task import Clock
+        self.clock = Clock()
+
+
 class Comp:
-    def __init__(self, seed):
-        self.world = World(seed=seed)
-        self.world.__enter__()
-        c = self.world.add_client()
+    def __init__(self, seed, world=None):
+        self.own_world = world is None
+        if world is None:
+            world = World(seed=seed)
+            world.__enter__()
+        self.world = world
+        if self.own_world:
+            c = self.world.add_client()
+            self.clock = world.clock
+        else:
+            # one of several wormholes of the process: its own reactor, so that `turn` is a turn of THIS wormhole's
+            # eventual queue (the model's `at <i> turn`)
+            shim = _OwnClock()
+            c = WorldClient(shim, len(world.clients), False)
+            world.clients.append(c)
+            self.clock = shim.clock
         self.c = c
         self.w = c.w
         b = c.boss
@@ -191,12 +342,16 @@ class Comp:
         b._T = _T(self.log)
         b._D = _D(self.log)
         b._W = _W(self.w, self.log)
+        self.view = RxView(b)
+        b._W.view = self.view
+        b._D.view = self.view
         self.real2model = {}
         self.spec_cache = {}
         self.ndef = 0
 
     def close(self):
-        self.world.__exit__(None, None, None)
+        if self.own_world:
+            self.world.__exit__(None, None, None)
 
     # real body for a body spec, and the body the model sees
     def bodies(self, spec):
@@ -242,14 +397,17 @@ class Comp:
 
     def digest(self):
         b = self.b
-        ro = self.w._received_observer
-        return (f"B={automat_state(b)} M={automat_state(b._M)} O={automat_state(b._O)} S={automat_state(b._S)} "
-                f"R={automat_state(b._R)} tx={b._next_tx_phase} rx={b._next_rx_phase} "
-                f"buf=[{','.join(str(k) for k in b._rx_phases)}] drx={b._next_rx_dilate_seqnum} "
-                f"dbuf=[{','.join(str(k) for k in b._rx_dilate_seqnums)}] "
-                f"pend=[{','.join(hs(k) for k in b._M._pending_outbound)}] "
-                f"proc=[{','.join(hs(k) for k in sorted(b._M._processed))}] "
-                f"sq={len(b._S._queue)} oq={len(b._O._queue)} res={len(ro._results)} obs={len(ro._observers)}")
+        nxt, keys, dnxt, dkeys = self.view.view()
+        return (f"B={peek(lambda: automat_state(b))} M={peek(lambda: automat_state(b._M))} "
+                f"O={peek(lambda: automat_state(b._O))} S={peek(lambda: automat_state(b._S))} "
+                f"R={peek(lambda: automat_state(b._R))} tx={peek(lambda: b._next_tx_phase)} rx={nxt} "
+                f"buf=[{','.join(str(k) for k in keys)}] drx={dnxt} "
+                f"dbuf=[{','.join(str(k) for k in dkeys)}] "
+                f"pend=[{peek(lambda: ','.join(hs(k) for k in b._M._pending_outbound))}] "
+                f"proc=[{peek(lambda: ','.join(hs(k) for k in sorted(b._M._processed)))}] "
+                f"sq={peek(lambda: len(b._S._queue))} oq={peek(lambda: len(b._O._queue))} "
+                f"res={peek(lambda: len(self.w._received_observer._results))} "
+                f"obs={peek(lambda: len(self.w._received_observer._observers))}")
 
     def _cb(self, res, did):
         if isinstance(res, failure.Failure):
@@ -328,7 +486,7 @@ class Comp:
                 self.w.get_message().addBoth(self._cb, did)
         elif k == "turn":
             line = "turn"
-            f = lambda: self.world.clock.advance(0)
+            f = lambda: self.clock.advance(0)
         else:
             raise ValueError(op)
         try:
@@ -347,14 +505,74 @@ class Comp:
         return line, out
 
 
+def comp_supplied(ops):
+    """what one client was handed, per stream and number: the i-th record passed on must be one of those for number i"""
+    import re
+    supplied, dsupplied = {}, {}
+    for op in ops:
+        if op[0] == "rx":
+            supplied.setdefault(op[1], set()).add(op[2])
+        elif op[0] == "drx":
+            dsupplied.setdefault(op[1], set()).add(op[2])
+        elif op[0] == "got_message" and op[1].strip("\n").isdigit() and op[1].isascii():
+            try:
+                supplied.setdefault(int(op[1]), set()).add(op[2])
+            except ValueError:
+                pass
+        elif op[0] == "got_message" and op[1].isascii() and re.search(r"^dilate-(\d+)$", op[1]):
+            dsupplied.setdefault(int(re.search(r"^dilate-(\d+)$", op[1]).group(1)), set()).add(op[2])
+        elif op[0] == "mailbox_rx" and op[3][0] == "seal" and op[2].isdigit() and op[2].isascii():
+            supplied.setdefault(int(op[2]), set()).add(op[3][3])
+        elif op[0] == "mailbox_rx" and op[3][0] == "seal" and op[2].isascii() and re.search(r"^dilate-(\d+)$", op[2]):
+            dsupplied.setdefault(int(re.search(r"^dilate-(\d+)$", op[2]).group(1)), set()).add(op[3][3])
+    return supplied, dsupplied
+
+
+def comp_events(exp, word):
+    got = []
+    for e in exp:
+        for ev in e.split(" | ")[0].split("; "):
+            w = ev.split(" ")
+            if word in w and w.index(word) + 1 < len(w):
+                got.append(w[w.index(word) + 1])
+    return got
+
+
+def comp_oracle(ops, exp, who="", others=()):
+    """oracle on a component run: the i-th plaintext handed to W.received must be one that was supplied for phase i
+    (by `rx i`, `got_message "i"` or an intact peer message labelled i) - whatever else happens (close, error, scared,
+    reconnects, OTHER wormholes or the dilate stream of this one being fed) nothing may be delivered across a gap, twice,
+    or from somewhere else; the same for the records handed to the Dilator (dilate-i).
+    `others`: the op lists of the other wormholes of the process (only used to say where a foreign record came from)"""
+    viol = []
+    supplied, dsupplied = comp_supplied(ops)
+    for word, sup, other_sup, what, sig in (("received", supplied, dsupplied, "phase", "comp-delivery-out-of-sequence"),
+                                            ("dilate", dsupplied, supplied, "dilate seqnum", "comp-dilate-out-of-sequence")):
+        got = comp_events(exp, word)
+        for i, g in enumerate(got):
+            if g in sup.get(i, ()):
+                continue
+            origin = ""
+            if any(g in v for v in other_sup.values()) and not any(g in v for v in sup.values()):
+                sig, origin = "comp-foreign-record:other-stream", " (it was supplied to the OTHER strict-order stream of this wormhole)"
+            else:
+                for j, oops in others:
+                    osup, odsup = comp_supplied(oops)
+                    if any(g in v for v in list(osup.values()) + list(odsup.values())) and not any(g in v for v in sup.values()):
+                        sig, origin = "comp-foreign-record:other-wormhole", f" (it was supplied to wormhole {j} of the same process)"
+                        break
+            viol.append((sig, f"{who}the {i}-th record handed on as `{word}` is {g[:16]}, which was never supplied for "
+                              f"{what} {i}{origin} (handed on so far: {[x[:8] for x in got[:i + 1]]})"))
+            break
+    return viol
+
+
 def run_comp(case):
     comp = Comp(case.get("seed", 0))
     try:
         lines = [f"new {comp.side}"]
         exp = ["ok"]
-        viol = []
         tags = set()
-        sent = []       # plaintexts accepted by Boss.send, in order (while the wormhole is not closing)
         for op in case["ops"]:
             line, out = comp.do(op)
             lines.append(line)
@@ -365,36 +583,65 @@ def run_comp(case):
                 w = ev.split(" ")
                 if "unknown-phase" in w:
                     tags.add("comp:unknown-phase")
-        # oracle on the component run: the i-th plaintext handed to W.received must be one that was supplied
-        # for phase i (by `rx i`, `got_message "i"` or an intact peer message labelled i) - whatever else
-        # happens (close, error, scared, reconnects) nothing may be delivered across a gap or twice
-        supplied = {}
-        for op in case["ops"]:
-            if op[0] == "rx":
-                supplied.setdefault(op[1], set()).add(op[2])
-            elif op[0] == "got_message" and op[1].strip("\n").isdigit() and op[1].isascii():
-                try:
-                    supplied.setdefault(int(op[1]), set()).add(op[2])
-                except ValueError:
-                    pass
-            elif op[0] == "mailbox_rx" and op[3][0] == "seal" and op[2].isdigit() and op[2].isascii():
-                supplied.setdefault(int(op[2]), set()).add(op[3][3])
-        got = []
-        for e in exp:
-            for ev in e.split(" | ")[0].split("; "):
-                w = ev.split(" ")
-                if "received" in w:
-                    got.append(w[w.index("received") + 1])
-        for i, g in enumerate(got):
-            if g not in supplied.get(i, ()):
-                viol.append(("comp-delivery-out-of-sequence",
-                             f"the {i}-th plaintext handed to the application is {g[:16]}, which was never supplied "
-                             f"for phase {i} (delivered so far: {[x[:8] for x in got[:i + 1]]})"))
-                break
+        viol = comp_oracle(case["ops"], exp)
+        if comp.view.behaviour_only:
+            tags.add("comp:observe=behaviour-only")
         nontrivial = any(" received " in e or not e.startswith("ok") for e in exp)
         return Result(lines, exp, viol, sorted(tags), nontrivial)
     finally:
         comp.close()
+
+
+def run_mcomp(case):
+    """several real clients created in ONE process, driven op by op in an interleaved order; the same lines go to the
+    model's process (`proc` / `at`)"""
+    world = World(seed=case.get("seed", 0))
+    world.__enter__()
+    try:
+        comps = [Comp(0, world) for _ in range(case["n"])]
+        lines = ["proc " + " ".join(c.side for c in comps)]
+        exp = ["ok"]
+        tags = {"mcomp:n=%d" % len(comps)}
+        per_ops = [[] for _ in comps]
+        per_exp = [[] for _ in comps]
+        for i, op in case["ops"]:
+            before = [rx_private(c.b) for c in comps]
+            line, out = comps[i].do(op)
+            # a step of one wormhole must not change another wormhole's buffers (the model's `at` cannot)
+            touched = [str(j) for j, c in enumerate(comps) if j != i and rx_private(c.b) != before[j]]
+            if touched:
+                out += " !touched=" + ",".join(touched)
+                tags.add("mcomp:touched-another-wormhole")
+            lines.append(f"at {i} {line}")
+            exp.append(out)
+            per_ops[i].append(op)
+            per_exp[i].append(out)
+            head = out.split(" ", 1)[0]
+            tags.add("mcomp:" + op[0] + ("" if head == "ok" else ":" + head))
+        viol = []
+        for i in range(len(comps)):
+            viol += comp_oracle(per_ops[i], per_exp[i], who=f"wormhole {i}: ",
+                                others=[(j, per_ops[j]) for j in range(len(comps)) if j != i])
+        # classes: a number parked in one buffer while another buffer of the process stands at that number
+        import re
+        state = {}
+        for (i, op), out in zip(case["ops"], exp[1:]):
+            m = re.search(r" rx=(\S+) buf=\[([^\]]*)\] drx=(\S+) dbuf=\[([^\]]*)\]", out)
+            if not m:
+                continue
+            state[(i, "rx")] = (m.group(1), [k for k in m.group(2).split(",") if k])
+            state[(i, "drx")] = (m.group(3), [k for k in m.group(4).split(",") if k])
+            for stream in ("rx", "drx"):
+                cur = state[(i, stream)][0]
+                for (j, st2), (_, ks) in state.items():
+                    if (j, st2) != (i, stream) and cur in ks:
+                        tags.add("mcomp:cursor-at-number-parked-" + ("in-another-wormhole" if j != i else "in-the-other-stream"))
+        if any(c.view.behaviour_only for c in comps):
+            tags.add("mcomp:observe=behaviour-only")
+        nontrivial = any(" received " in e or not e.startswith("ok") for e in exp)
+        return Result(lines, exp, viol, sorted(tags), nontrivial)
+    finally:
+        world.__exit__(None, None, None)
 
 
 PEER = "bb22bb22bb"
@@ -580,42 +827,63 @@ def payload(rng, i, who):
     return (base * (n // 2 + 1))[:n]
 
 
-def gen_e2e(rng, tier):
+CODES = [CODE, "5-orange-marmalade", "6-violet-gherkins"]      # pair p = clients 2p, 2p+1 share CODES[p]
+
+
+def peer_frames(c):
+    """(index, phase) of the queued `message` frames from the peer, in queue order"""
+    if c.conn is None:
+        return []
+    out = []
+    for i, fr in enumerate(c.conn.s2c):
+        try:
+            m = bytes_to_dict(fr)
+        except Exception:
+            continue
+        if m.get("type") == "message" and m.get("side") != c.side:
+            out.append((i, m.get("phase")))
+    return out
+
+
+def gen_e2e(rng, tier, npairs=1):
     """a schedule generated against a live World, so that the fault operations hit states in which they
-    do something (frames queued, connection up, …); the op list replays exactly"""
-    nmsg = [rng.randrange(0, 9), rng.randrange(0, 9)]
+    do something (frames queued, connection up, …); the op list replays exactly.
+    npairs > 1: several pairs of wormholes in the ONE process (pair p = clients 2p, 2p+1, own code each)"""
+    n = 2 * npairs
+    everyone = range(n)
+    nmsg = [rng.randrange(0, 9 if npairs == 1 else 5) for _ in everyone]
     if rng.random() < 0.3:
-        nmsg[rng.randrange(2)] = 0
-    deleg = [rng.random() < 0.5, rng.random() < 0.5]
+        nmsg[rng.randrange(n)] = 0
+    deleg = [rng.random() < 0.5 for _ in everyone]
     code_mode = rng.choice(["set", "set", "set", "alloc"])
-    with_dilate = rng.random() < 0.5
-    with_close = rng.random() < 0.35
+    with_dilate = rng.random() < (0.5 if npairs == 1 else 0.7)
+    with_close = rng.random() < (0.35 if npairs == 1 else 0.15)
     todo = {}
-    for who in (0, 1):
+    for who in everyone:
         seq = [["api", who, "send", hx(payload(rng, i, who))] for i in range(nmsg[who])]
         if with_dilate:
             for j in range(rng.randrange(0, 4)):
-                body = b'{"type": "%s", "n": %d}' % (rng.choice([b"please", b"connection-hints", b"reconnect"]), j)
+                body = b'{"type": "%s", "n": %d, "w": %d}' % (rng.choice([b"please", b"connection-hints", b"reconnect"]), j, who)
                 seq.insert(rng.randrange(0, len(seq) + 1), ["dsend", who, hx(body)])
-        if code_mode == "alloc" and who == 0:
-            codeop = ["api", 0, "allocate_code"]
+        if code_mode == "alloc" and who % 2 == 0:
+            codeop = ["api", who, "allocate_code"]
         elif code_mode == "alloc":
-            codeop = ["code_from", 1, 0]
+            codeop = ["code_from", who, who ^ 1]
         else:
-            codeop = ["api", who, "set_code", CODE]
+            codeop = ["api", who, "set_code", CODES[who // 2]]
         pos = rng.randrange(0, len(seq) + 1) if rng.random() < 0.7 else 0
         seq.insert(pos, codeop)
         todo[who] = seq
     seed = rng.randrange(10**6)
-    chaos = rng.choice([0.0, 0.3, 1.0, 2.0])
+    chaos = rng.choice([0.0, 0.3, 1.0, 2.0]) if npairs == 1 else rng.choice([0.3, 1.0, 2.0])
     eager = rng.choice([0.3, 1.0, 3.0])       # how eagerly the applications call the API
     ops = []
     # re-entrant applications: API calls made from inside delegate / Deferred callbacks
     script = None
     if rng.random() < 0.4:
         script = {}
-        n = 0
-        for who in (0, 1):
+        k = 0
+        for who in everyone:
             d = {}
             for ev in ("welcome", "code", "key", "verifier", "versions", "message"):
                 if rng.random() < 0.4:
@@ -623,8 +891,8 @@ def gen_e2e(rng, tier):
                     for _ in range(rng.choice([1, 1, 2])):
                         acts = []
                         for _ in range(rng.choice([1, 1, 2])):
-                            n += 1
-                            acts.append(["send", "5c%02x%02x" % (who, n)])
+                            k += 1
+                            acts.append(["send", "5c%02x%02x" % (who, k)])
                         if with_close and rng.random() < 0.1:
                             acts.append(["close"])
                         occ.append(acts)
@@ -634,14 +902,14 @@ def gen_e2e(rng, tier):
     nfollow = 0
     slow = eagerr = None
     if rng.random() < 0.35:
-        slow = [rng.choice([0.0, 0.005, 0.03, 0.2]), rng.choice([0.005, 0.03, 0.2])]
+        slow = [rng.choice([0.0, 0.005, 0.03, 0.2]) for _ in range(n - 1)] + [rng.choice([0.005, 0.03, 0.2])]
         rng.shuffle(slow)
-        eagerr = [rng.random() < 0.6, rng.random() < 0.6]
+        eagerr = [rng.random() < 0.6 for _ in everyone]
     run = E2ERun(seed, deleg, script, slow, eagerr)
     try:
-        for _ in range(rng.randrange(40, 260)):
+        for _ in range(rng.randrange(40, 260) if npairs == 1 else rng.randrange(80, 360)):
             cand = []
-            for who in (0, 1):
+            for who in everyone:
                 c = run.cl[who]
                 if todo[who]:
                     cand.append((eager, ["todo", who]))
@@ -659,12 +927,16 @@ def gen_e2e(rng, tier):
                         cand.append((0.5 * chaos, ["dupmsg", who, rng.randrange(nm)]))
                     if nm >= 2:
                         cand.append((0.7 * chaos, ["swapmsg", who, rng.randrange(nm), rng.randrange(nm)]))
+                    pf = peer_frames(c)
+                    if len(pf) >= 2:
+                        # the server hands over a later frame of the peer first (the earlier ones stay queued)
+                        cand.append((0.6 * chaos, ["hand", who, rng.choice(pf[1:])[1]]))
                 if c.eq._calls:
                     cand.append((1.0, ["turn", who]))
                 if not c.delegated:
                     cand.append((0.9 if slow else 0.3, ["api", who, "get_message"]))   # pipelined reads
                 if with_close and not run.any_close:
-                    parked = bool(_keys(getattr(c.boss, "_rx_phases", None)))
+                    parked = run.taps[who].view.parked()
                     cand.append((0.6 if parked else 0.03, ["api", who, "close"]))
                     if c.conn is not None:
                         cand.append((0.3 if parked else 0.01, ["srverr", who]))
@@ -688,7 +960,7 @@ def gen_e2e(rng, tier):
             else:
                 run.do(op)
                 ops.append(op)
-            for who in (0, 1):
+            for who in everyone:
                 # the application reacted inside a callback during this step: it may call send_message again
                 # right after the triggering call returned, before any eventual turn runs
                 if run.reacted[who] > before[who] and rng.random() < 0.7:
@@ -698,7 +970,7 @@ def gen_e2e(rng, tier):
                     ops.append(f)
     finally:
         run.close()
-    for who in (0, 1):
+    for who in everyone:
         ops.extend(todo[who])
     case = dict(kind="e2e", seed=seed, deleg=deleg, ops=ops)
     if script:
@@ -707,6 +979,49 @@ def gen_e2e(rng, tier):
         case["slow"] = slow
         case["eager"] = eagerr
     return case
+
+
+def cross_case(npairs, nmsg, ndil, seq, deleg, seed=29):
+    """npairs pairs of wormholes in one process; after the handshakes every client submits dilate-0..(ndil-1) and sends
+    nmsg numbered messages, the server stores everything, and then hands the peers' frames over one at a time in the
+    GLOBAL order `seq` = [(client, phase name), …] — any order per client (early phases are held back), interleaved
+    across the clients in any way; whatever `seq` leaves out follows in FIFO order"""
+    n = 2 * npairs
+    ops = [["open", i] for i in range(n)] + [["api", i, "set_code", CODES[i // 2]] for i in range(n)] + [["settle"]]
+    for i in range(n):
+        for j in range(ndil):
+            ops.append(["dsend", i, hx(b'{"type": "dil", "w": %d, "n": %d}' % (i, j))])
+        for k in range(nmsg):
+            ops.append(["api", i, "send", "%02x%02x%02x" % (0xa0 + i, 16 * i + k, k)])
+    for i in range(n):
+        ops += [["c2s", i]] * (nmsg + ndil)
+    ops += [["hand", x, ph] for (x, ph) in seq]
+    ops += [["settle"]]
+    return dict(kind="e2e", seed=seed, deleg=list(deleg), ops=ops, cross=True)
+
+
+def cross_items(npairs, nmsg, ndil):
+    return [(x, ph) for x in range(2 * npairs) for ph in [str(k) for k in range(nmsg)] + ["dilate-%d" % j for j in range(ndil)]]
+
+
+def gen_cross(rng, npairs=None):
+    """a random global hand-over order; half of them start with one client being handed a LATER number first and the
+    other clients / the other stream then running up to and past that number while it is held"""
+    npairs = npairs or rng.choice([1, 1, 2])
+    nmsg, ndil = rng.choice([2, 3]), rng.choice([0, 1, 2])
+    items = cross_items(npairs, nmsg, ndil)
+    rng.shuffle(items)
+    if rng.random() < 0.5:
+        v = rng.randrange(2 * npairs)
+        k = rng.randrange(1, nmsg)
+        early = (v, rng.choice([str(k)] + (["dilate-%d" % min(k, ndil - 1)] if ndil > 1 else [])))
+        others = [(x, ph) for (x, ph) in items if x != v]
+        others.sort(key=lambda e: (int(e[1].split("-")[-1]), rng.random()))
+        rest = [e for e in items if e[0] == v and e != early]
+        items = [early] + others + rest
+    if rng.random() < 0.3:
+        items = items[:rng.randrange(1, len(items) + 1)]
+    return cross_case(npairs, nmsg, ndil, items, [rng.random() < 0.5 for _ in range(2 * npairs)], seed=rng.randrange(10**6))
 
 
 def slow_case(nmsg, nget, slow, eager, deleg0=False, order=None):
@@ -862,6 +1177,7 @@ class _DStandIn:
     def received_dilate(self, pt):
         self.tap.dilated.append(pt)
         self.tap.order.append(("dilate", pt))
+        self.tap.view.delivered("drx")
 
 
 def dil_case(perm, deleg, ndil=2, nmsg=3):
@@ -899,9 +1215,11 @@ def close_case(perm, k, how, deleg):
 
 
 class Tap:
-    """observation points on one real client (instance attributes only; nothing in /repo changes)"""
+    """observation points on one real client (instance attributes only; nothing in /repo changes).  What the oracle
+    uses is public behaviour: the arguments of `W.received` / `D.received_dilate` and the application's own events."""
 
-    def __init__(self, events, c, idx):
+    def __init__(self, run, c, idx):
+        self.run = run
         self.c = c
         self.idx = idx
         self.delivered = []     # W.received(pt) calls
@@ -911,38 +1229,36 @@ class Tap:
         b = c.boss
         w = c.w
         orig_received = w.received
-        orig_got_phase = b._got_phase
-        orig_got_dilate = b._got_dilate
-        orig_rx = b._M.rx_message
         b._D = _DStandIn(self)
+        events = run.events
 
         def received(pt):
             self.delivered.append(pt)
             self.order.append(("received", pt))
+            self.view.delivered("rx")
             return orig_received(pt)
 
-        def wrap(kind, orig):
-            def f(n, pt):
-                n0 = len(self.order)
-                st0 = automat_state(b)
-                try:
-                    return orig(n, pt)
-                finally:
-                    # observation only: must never raise into the real call, whatever the buffers look like
-                    self.got_phase.append((kind, n, pt, st0, list(self.order[n0:]), getattr(b, "_next_rx_phase", "?"),
-                                           _keys(getattr(b, "_rx_phases", None)),
-                                           getattr(b, "_next_rx_dilate_seqnum", "?"),
-                                           _keys(getattr(b, "_rx_dilate_seqnums", None))))
-            return f
-
-        def rx_message(side, phase, body):
-            events.append(("rx", idx, side, phase))
-            return orig_rx(side, phase, body)
-
         w.received = received
-        b._got_phase = wrap("rx", orig_got_phase)
-        b._got_dilate = wrap("drx", orig_got_dilate)
-        b._M.rx_message = rx_message
+        self.view = RxView(b, before=self._before, after=self._after)
+        orig_rx = getattr(getattr(b, "_M", None), "rx_message", None)
+        if orig_rx is not None:
+            def rx_message(side, phase, body):
+                events.append(("rx", idx, side, phase))
+                return orig_rx(side, phase, body)
+            b._M.rx_message = rx_message
+
+    def _before(self):
+        return len(self.order), [rx_private(t.c.boss) for t in self.run.taps]
+
+    def _after(self, kind, n, pt, st0, tok):
+        n0, before = tok
+        nxt, keys, dnxt, dkeys = self.view.view()
+        # a step of this wormhole must not change the buffers of another wormhole of the process
+        touched = [j for j, t in enumerate(self.run.taps) if j != self.idx and j < len(before)
+                   and rx_private(t.c.boss) != before[j]]
+        entry = (kind, n, pt, st0, list(self.order[n0:]), nxt, keys, dnxt, dkeys, touched)
+        self.got_phase.append(entry)
+        self.run.glog.append((self.idx, entry))
 
 
 def app_received(c):
@@ -996,25 +1312,30 @@ class ScriptDelegate:
 
 
 class E2ERun:
+    """n = len(deleg) real wormholes in ONE process (one World: one server, one reactor clock); clients 2p and 2p+1 are
+    the two ends of pair p"""
+
     def __init__(self, seed, deleg, script=None, slow=None, eager=None):
         self.W = World(seed=seed)
         self.W.__enter__()
         W = self.W
         self.deleg = deleg
-        self.cl = [W.add_client(delegated=deleg[0]), W.add_client(delegated=deleg[1])]
+        self.n = n = len(deleg)
+        self.cl = [W.add_client(delegated=d) for d in deleg]
         # what the applications do from inside their callbacks: script[str(who)][event] = [[action, …] per occurrence]
         self.script = {int(k): {e: [list(x) for x in v] for e, v in d.items()} for k, d in (script or {}).items()}
-        self.reacted = {0: 0, 1: 0}        # number of scripted reactions performed so far, per client
+        self.reacted = {i: 0 for i in range(n)}        # number of scripted reactions performed so far, per client
         # applications whose callbacks take time (the clock moves while one runs) and which ask for the next message
         # from inside a callback (Deferred API: the World's Client does both; Delegated API: ScriptDelegate bumps)
-        self.slow = list(slow or [0.0, 0.0])
-        for who in (0, 1):
+        self.slow = (list(slow or []) + [0.0] * n)[:n]
+        eager = (list(eager or []) + [False] * n)[:n]
+        for who in range(n):
             c = self.cl[who]
             c.slow = self.slow[who]
-            c.read_in_callback = bool((eager or [False, False])[who])
+            c.read_in_callback = bool(eager[who])
             if c.delegated and self.slow[who] and who not in self.script:
                 c.w._delegate = ScriptDelegate(c.w._delegate, self, who)
-        for who in (0, 1):
+        for who in range(n):
             c = self.cl[who]
             if who not in self.script:
                 continue
@@ -1027,11 +1348,14 @@ class E2ERun:
                     d = meth()
                     d.addCallbacks(lambda r, ev=ev, who=who: self.react(who, ev), lambda f: None)
         self.events = []
-        self.taps = [Tap(self.events, self.cl[0], 0), Tap(self.events, self.cl[1], 1)]
-        self.sent = {0: [], 1: []}
+        self.glog = []                   # every _got_phase / _got_dilate call of every client, in the order they happened
+        self.taps = []
+        for i in range(n):
+            self.taps.append(Tap(self, self.cl[i], i))
+        self.sent = {i: [] for i in range(n)}
         self.any_close = False           # some wormhole was told to close or closed itself: no completeness claim
-        self.dsent = {0: [], 1: []}      # bodies submitted as dilate-0, dilate-1, … (what Manager.send_dilation_phase does)
-        self.ngets = {0: 0, 1: 0}
+        self.dsent = {i: [] for i in range(n)}   # bodies submitted as dilate-0, dilate-1, … (what Manager.send_dilation_phase does)
+        self.ngets = {i: 0 for i in range(n)}
         self.viol = []
         self.tags = set()
 
@@ -1051,11 +1375,39 @@ class E2ERun:
             elif act[0] == "close":
                 self.do(["api", who, "close"])
 
+    def foreign(self, x, records, stream):
+        """(origin, record) for the first record handed to client x on `stream` ("message": its application,
+        "dilate": its Dilator) that its peer never submitted on that stream although somebody in the process did:
+        nothing of anybody else's, nothing of its own, nothing of the other stream"""
+        y = x ^ 1
+        same = self.sent if stream == "message" else self.dsent      # submissions on this stream, per client
+        other = self.dsent if stream == "message" else self.sent
+        for m in records:
+            if m in same[y]:
+                continue
+            for z in range(self.n):
+                if z != y and m in same[z]:
+                    return ("own-submission" if z == x else "another-wormhole"), m
+            for z in range(self.n):
+                if m in other[z]:
+                    return "other-stream" + ("" if z in (x, y) else ":another-wormhole"), m
+        return None
+
     def check(self, where):
         cl, sent, taps, viol = self.cl, self.sent, self.taps, self.viol
-        for x in (0, 1):
+        for x in range(self.n):
+            y = x ^ 1
             r = app_received(cl[x])
-            s = sent[1 - x]
+            for stream, recs, what in (("message", r, "application received"), ("message", taps[x].delivered, "W.received got"),
+                                       ("dilate", taps[x].dilated, "Dilator was handed")):
+                f = self.foreign(x, recs, stream)
+                if f is not None:
+                    viol.append(("foreign-record:" + stream + ":" + f[0],
+                                 f"{where}: client {x}'s {what} {f[1].hex()[:24]}, which its peer (client {y}) never "
+                                 f"submitted as a {stream} record — it comes from {f[0]}; got so far "
+                                 f"{[m.hex()[:16] for m in recs]}"))
+                    return False
+            s = sent[y]
             if r != s[:len(r)]:
                 why = classify(r, s)
                 viol.append(("not-prefix:" + why,
@@ -1069,13 +1421,16 @@ class E2ERun:
                              f"{[m.hex()[:16] for m in s]}"))
                 return False
             dd = taps[x].dilated
-            ds = self.dsent[1 - x]
+            ds = self.dsent[y]
             if dd != ds[:len(dd)]:
                 viol.append(("dilate-not-prefix:" + classify(dd, ds),
                              f"{where}: client {x}'s Dilator was handed {[m.hex()[:16] for m in dd]} but its peer "
                              f"submitted dilate-0.. = {[m.hex()[:16] for m in ds]}"))
                 return False
         return True
+
+    def parked(self, who):
+        return self.taps[who].view.parked()
 
     def do(self, op):
         W, cl, sent = self.W, self.cl, self.sent
@@ -1086,12 +1441,25 @@ class E2ERun:
                 return False
             W.do(["api", op[1], "set_code", code[0]])
             return True
+        if k == "hand":
+            # the server hands client op[1] its peer's stored message with phase op[2] NOW, ahead of whatever else is
+            # queued for that client (which stays queued): reordering, per client and across clients
+            c = cl[op[1]]
+            hit = [i for (i, ph) in peer_frames(c) if ph == op[2]]
+            stopping = c.svc.stopping is not None and not c.svc.stopping.called
+            if not hit or stopping or getattr(c.conn, "closing", False):
+                self.tags.add("e2e:hand:noop")
+                return True
+            fr = c.conn.s2c[hit[0]]
+            del c.conn.s2c[hit[0]]
+            W._guard(c, lambda: c.rc.ws_message(fr))
+            self.tags.add("e2e:hand" + (":overtaking" if hit[0] > 0 else ""))
+            return True
         if k == "msgorder":
             # the peer's queued `message` frames with the listed phases are handed over in the listed order
             c = cl[op[1]]
             if c.conn is None:
                 return True
-            from wormhole.util import bytes_to_dict
             q = c.conn.s2c
             pos = {}
             for i, fr in enumerate(q):
@@ -1128,7 +1496,7 @@ class E2ERun:
             self.ngets[op[1]] += 1
         if k == "api" and op[2] == "close":
             self.any_close = True
-            self.tags.add("e2e:close" + (":parked" if _keys(getattr(cl[op[1]].boss, "_rx_phases", None)) else ""))
+            self.tags.add("e2e:close" + (":parked" if self.parked(op[1]) else ""))
         if k == "srverr":
             # the server sends an `error` frame (e.g. crowded) ahead of whatever is queued: the wormhole closes itself
             c = cl[op[1]]
@@ -1137,7 +1505,7 @@ class E2ERun:
             from wormhole.util import dict_to_bytes
             c.conn.s2c.appendleft(dict_to_bytes({"type": "error", "error": "crowded", "orig": {"type": "open"}}))
             self.any_close = True
-            self.tags.add("e2e:srverr" + (":parked" if _keys(getattr(c.boss, "_rx_phases", None)) else ""))
+            self.tags.add("e2e:srverr" + (":parked" if self.parked(op[1]) else ""))
             return True
         if k == "scare":
             # the next queued peer message is corrupted: Receive is scared, the wormhole closes itself
@@ -1160,23 +1528,28 @@ class E2ERun:
         return True
 
 
+Z = ("M=S0A O=S0_no_pake S=S0_no_key R=S0_unknown_key tx=0 rx={rx} buf=[{buf}] drx={drx} dbuf=[{dbuf}] "
+     "pend=[] proc=[] sq=0 oq=0 res={res} obs=0")
+
+
 def run_e2e(case):
     lines, exp = [], []
     run = E2ERun(case["seed"], case["deleg"], case.get("script"), case.get("slow"), case.get("eager"))
     try:
         W, cl, taps, sent, viol, tags, events = run.W, run.cl, run.taps, run.sent, run.viol, run.tags, run.events
         do, check, ngets = run.do, run.check, run.ngets
+        n = run.n
         deferred_ops = []
         for op in case["ops"]:
             if not do(op):
                 deferred_ops.append(op)
-            if op[0] in ("s2c", "turn", "settle") and not check("during the schedule"):
+            if op[0] in ("s2c", "turn", "settle", "hand") and not check("during the schedule"):
                 break
         if not viol:
             check("during the schedule")
         # final: reconnect, run to quiescence, claim everything
         if not viol:
-            for x in (0, 1):
+            for x in range(n):
                 W.do(["open", x])
             W.do(["settle"])
             for op in deferred_ops:
@@ -1184,36 +1557,37 @@ def run_e2e(case):
                     W.do(["settle"])
                     do(op)
             W.do(["settle"])
-            for x in (0, 1):
+            for x in range(n):
                 if not cl[x].delegated:
-                    for _ in range(max(0, len(sent[1 - x]) - ngets[x])):
+                    for _ in range(max(0, len(sent[x ^ 1]) - ngets[x])):
                         W.do(["api", x, "get_message"])
             W.do(["settle"])
-            codes = [[v for (n, v) in c.events if n == "code"] for c in cl]
-            shared = bool(codes[0]) and codes[0] == codes[1]      # "two wormholes that share a code"
+            codes = [[v for (nm, v) in c.events if nm == "code"] for c in cl]
+            # "two wormholes that share a code": pair by pair
+            shared = all(bool(codes[x]) and codes[x] == codes[x ^ 1] for x in range(n))
             if run.any_close:
                 shared = False      # after a close only the prefix property is claimed, not completeness
                 tags.add("e2e:closed-run")
             if not shared:
                 tags.add("e2e:no-shared-code")
             if check("after the final settle") and shared:
-                for x in (0, 1):
+                for x in range(n):
                     r = app_received(cl[x])
-                    if r != sent[1 - x]:
+                    if r != sent[x ^ 1]:
                         viol.append(("incomplete-after-settle",
-                                     f"client {x} received {len(r)} of the {len(sent[1 - x])} messages its peer sent "
-                                     f"(internal errors: {cl[x].internal[:2]} / {cl[1 - x].internal[:2]})"))
+                                     f"client {x} received {len(r)} of the {len(sent[x ^ 1])} messages its peer sent "
+                                     f"(internal errors: {cl[x].internal[:2]} / {cl[x ^ 1].internal[:2]})"))
                         break
                 if not viol:
-                    for x in (0, 1):
-                        if taps[x].dilated != run.dsent[1 - x]:
+                    for x in range(n):
+                        if taps[x].dilated != run.dsent[x ^ 1]:
                             viol.append(("dilate-incomplete-after-settle",
                                          f"client {x}'s Dilator got {len(taps[x].dilated)} of the "
-                                         f"{len(run.dsent[1 - x])} dilate-N messages its peer submitted"))
+                                         f"{len(run.dsent[x ^ 1])} dilate-N messages its peer submitted"))
                             break
-        # ---- the same run through the model: Pipe per direction, reorder buffer per client
-        for x in (0, 1):          # receiver x, sender y
-            y = 1 - x
+        # ---- the same run through the model: Pipe per direction …
+        for x in range(n):          # receiver x, sender y
+            y = x ^ 1
             acts = []
             for ev in events:
                 if ev[0] == "send" and ev[1] == y:
@@ -1225,45 +1599,65 @@ def run_e2e(case):
                 acts = ["s" + hx(m) for m in sent[y]]
                 acts += ["d" + str(g[1]) for g in taps[x].got_phase
                          if g[0] == "rx" and g[3] == "S2_happy" and g[1] < len(sent[y])]
-            b = cl[x].boss
+            nxt, keys, _, _ = taps[x].view.view()
             lines.append("pipe " + " ".join(acts) if acts else "pipe")
-            exp.append(f"received=[{','.join(hx(m) for m in taps[x].delivered)}] next={b._next_rx_phase} "
-                       f"buf={len(_keys(getattr(b, '_rx_phases', None)))}")
-            # replay of both reorder buffers (numbered phases and dilate-N), in the order the Boss saw them
-            lines += [f"new {cl[x].side}", "boss got_code", "boss happy"]
-            z = ("M=S0A O=S0_no_pake S=S0_no_key R=S0_unknown_key tx=0 rx={rx} buf=[{buf}] drx={drx} dbuf=[{dbuf}] "
-                 "pend=[] proc=[] sq=0 oq=0 res={res} obs=0")
-            exp += ["ok", "ok code | B=S1_lonely " + z.format(rx=0, buf="", drx=0, dbuf="", res=0),
-                    "ok | B=S2_happy " + z.format(rx=0, buf="", drx=0, dbuf="", res=0)]
-            res = 0
-            for (kind, phase, pt, st0, evs, nxt, keys, dnxt, dkeys) in taps[x].got_phase:
-                if st0 != "S2_happy":
-                    continue
-                res += sum(1 for e in evs if e[0] == "received")
-                lines.append(f"{kind} {phase} {hx(pt)}")
-                ev = "; ".join(e[0] + " " + hx(e[1]) for e in evs)
-                exp.append("ok" + (" " + ev if ev else "") + " | B=S2_happy " +
-                           z.format(rx=nxt, buf=",".join(str(k) for k in keys), drx=dnxt,
-                                    dbuf=",".join(str(k) for k in dkeys), res=res))
-        n = sum(len(t.delivered) for t in taps)
-        tags.add("e2e:delivered=%d" % min(n, 16))
+            exp.append(f"received=[{','.join(hx(m) for m in taps[x].delivered)}] next={nxt} buf={len(keys)}")
+        # … and the process of n wormholes: both reorder buffers (numbered phases and dilate-N) of every Boss, fed in
+        # the GLOBAL order in which the real Bosses were fed (interleaved across the wormholes of the process)
+        lines.append("proc " + " ".join(c.side for c in cl))
+        exp.append("ok")
+        for x in range(n):
+            lines += [f"at {x} boss got_code", f"at {x} boss happy"]
+            exp += ["ok code | B=S1_lonely " + Z.format(rx=0, buf="", drx=0, dbuf="", res=0),
+                    "ok | B=S2_happy " + Z.format(rx=0, buf="", drx=0, dbuf="", res=0)]
+        res = [0] * n
+        for x, (kind, phase, pt, st0, evs, nxt, keys, dnxt, dkeys, touched) in run.glog:
+            if st0 != "S2_happy":
+                continue
+            res[x] += sum(1 for e in evs if e[0] == "received")
+            lines.append(f"at {x} {kind} {phase} {hx(pt)}")
+            ev = "; ".join(e[0] + " " + hx(e[1]) for e in evs)
+            exp.append("ok" + (" " + ev if ev else "") + " | B=S2_happy " +
+                       Z.format(rx=nxt, buf=",".join(str(k) for k in keys), drx=dnxt,
+                                dbuf=",".join(str(k) for k in dkeys), res=res[x]) +
+                       (" !touched=" + ",".join(str(j) for j in touched) if touched else ""))
+            if touched:
+                tags.add("e2e:touched-another-wormhole")
+        nd_ = sum(len(t.delivered) for t in taps)
+        tags.add("e2e:delivered=%d" % min(nd_, 16))
         nd = sum(len(t.dilated) for t in taps)
         if nd:
             tags.add("e2e:dilate-delivered=%d" % min(nd, 8))
-        for x in (0, 1):
+        tags.add("e2e:wormholes-in-process=%d" % n)
+        for x in range(n):
             if any(g[0] == "drx" and g[8] for g in taps[x].got_phase) and any(g[0] == "rx" for g in taps[x].got_phase):
                 tags.add("e2e:dilate-parked-while-phases-arrive")
+        # the new dimension: a number is parked in one buffer of the process while ANOTHER buffer's cursor stands at it
+        state = {}
+        for x, g in run.glog:
+            state[(x, "rx")] = (g[5], list(g[6]))
+            state[(x, "drx")] = (g[7], list(g[8]))
+            for stream in ("rx", "drx"):
+                cur = state[(x, stream)][0]
+                for (j, st2), (_, ks) in state.items():
+                    if (j, st2) != (x, stream) and cur in ks:
+                        tags.add("e2e:cursor-at-number-parked-" + ("in-another-wormhole" if j != x else "in-the-other-stream")
+                                 + (":other-pair" if j // 2 != x // 2 else ""))
+        if any(t.view.behaviour_only for t in taps):
+            tags.add("e2e:observe=behaviour-only")
+        if case.get("cross"):
+            tags.add("e2e:cross-schedule")
         if any(case.get("slow") or []):
             tags.add("e2e:slow-app" + (":eager" if any(case.get("eager") or []) else ""))
-        tags.add("e2e:api=" + ("deleg" if case["deleg"][0] else "defer") + "/" + ("deleg" if case["deleg"][1] else "defer"))
+        tags.add("e2e:api=" + "/".join("deleg" if d else "defer" for d in case["deleg"][:2]))
         nrx = {}
         for ev in events:
             if ev[0] == "rx" and ev[3].isdigit():
                 nrx[(ev[1], ev[2], ev[3])] = nrx.get((ev[1], ev[2], ev[3]), 0) + 1
         if any(v > 1 for v in nrx.values()):
             tags.add("e2e:phase-arrived-more-than-once")
-        for x in (0, 1):
-            order = [int(ev[3]) for ev in events if ev[0] == "rx" and ev[1] == x and ev[2] == cl[1 - x].side and ev[3].isdigit()]
+        for x in range(n):
+            order = [int(ev[3]) for ev in events if ev[0] == "rx" and ev[1] == x and ev[2] == cl[x ^ 1].side and ev[3].isdigit()]
             first = []
             for o in order:
                 if o not in first:
@@ -1271,9 +1665,9 @@ def run_e2e(case):
             if first != sorted(first):
                 tags.add("e2e:arrived-out-of-order")
         for c in cl:
-            for (name, _) in c.internal:
+            for (name, *_rest) in c.internal:
                 tags.add("e2e:internal:" + name)
-        return Result(lines, exp, viol, sorted(tags), nontrivial=n > 0)
+        return Result(lines, exp, viol, sorted(tags), nontrivial=nd_ > 0)
     finally:
         run.close()
 
@@ -1282,7 +1676,74 @@ def run_e2e(case):
 
 REENT_EVENTS = ["welcome", "code", "key", "verifier", "versions", "message"]
 
+MCOMP_CORPUS = [
+    # wormhole 1 is handed phase 1 early and holds it; wormhole 0 then gets its phases 0 and 1, wormhole 1 its phase 0
+    dict(kind="mcomp", seed=1, n=2, ops=[[0, ["boss", "got_code"]], [0, ["boss", "happy"]], [1, ["boss", "got_code"]],
+                                         [1, ["boss", "happy"]], [1, ["rx", 1, "b1b1"]], [0, ["rx", 0, "a0a0"]],
+                                         [0, ["rx", 1, "a1a1"]], [1, ["rx", 0, "b0b0"]], [0, ["get_message"]],
+                                         [1, ["get_message"]], [0, ["turn"]], [1, ["turn"]]]),
+    # … and the dilate stream of the same wormhole: dilate-1 held while the numbered phases run past 1 (and vice versa)
+    dict(kind="mcomp", seed=2, n=2, ops=[[0, ["boss", "got_code"]], [0, ["boss", "happy"]], [1, ["boss", "got_code"]],
+                                         [1, ["boss", "happy"]], [1, ["rx", 1, "b1b1"]], [0, ["drx", 1, "d1d1"]],
+                                         [0, ["rx", 0, "a0a0"]], [0, ["rx", 1, "a1a1"]], [0, ["rx", 2, "a2a2"]],
+                                         [1, ["drx", 0, "e0e0"]], [1, ["drx", 1, "e1e1"]], [1, ["rx", 0, "b0b0"]],
+                                         [0, ["drx", 0, "d0d0"]]]),
+    # three wormholes, the phases arrive through Boss.got_message / the Mailbox, one of them closes meanwhile
+    dict(kind="mcomp", seed=3, n=3, ops=[[i, ["boss", "got_code"]] for i in range(3)] + [[i, ["boss", "happy"]] for i in range(3)] +
+         [[2, ["got_message", "2", "c2c2"]], [1, ["got_message", "1", "b1b1"]], [0, ["got_message", "dilate-1", "d1d1"]],
+          [0, ["got_message", "0", "a0a0"]], [0, ["got_message", "1", "a1a1"]], [1, ["boss", "close"]],
+          [0, ["got_message", "2", "a2a2"]], [0, ["got_message", "3", "a3a3"]], [2, ["got_message", "0", "c0c0"]],
+          [2, ["got_message", "1", "c1c1"]], [1, ["got_message", "0", "b0b0"]], [0, ["got_message", "dilate-0", "d0d0"]]]),
+]
+
+
+def gen_mcomp(rng):
+    """several wormholes of one process, each fed numbered phases and dilate seqnums out of order, the feeding
+    interleaved across the wormholes; payloads are unique per (wormhole, stream, number)"""
+    n = rng.choice([2, 2, 3])
+    if rng.random() < 0.3:
+        # full component op sequences (honest + adversarial), interleaved
+        seqs = [gen_comp(rng, adversarial=rng.random() < 0.3) for _ in range(n)]
+    else:
+        seqs = []
+        for i in range(n):
+            k, d = rng.randrange(2, 6), rng.randrange(0, 4)
+            recs = [("rx", q, "%02x%02x%02x" % (0xc0 + i, 0, q)) for q in range(k)] + \
+                   [("drx", q, "%02x%02x%02x" % (0xc0 + i, 1, q)) for q in range(d)]
+            rng.shuffle(recs)
+            if rng.random() < 0.6:
+                recs.sort(key=lambda r: -r[1] if rng.random() < 0.7 else r[1])     # mostly high numbers first: they are held
+            ops = [["boss", "got_code"], ["boss", "happy"]]
+            for (kind, q, pt) in recs:
+                r = rng.random()
+                if r < 0.6:
+                    ops.append([kind, q, pt])
+                else:
+                    ops.append(["got_message", ("%d" if kind == "rx" else "dilate-%d") % q, pt])
+                if rng.random() < 0.15:
+                    ops.append(list(ops[-1]))                                   # the same record again
+                if rng.random() < 0.2:
+                    ops.append(rng.choice([["get_message"], ["turn"], ["send", "%02x%02x" % (0xe0 + i, q)]]))
+            if rng.random() < 0.15:
+                ops.insert(rng.randrange(2, len(ops) + 1), ["boss", rng.choice(["close", "scared", "rx_error"])])
+            seqs.append(ops)
+    out = []
+    while any(seqs):
+        i = rng.choice([j for j in range(n) if seqs[j]])
+        out.append([i, seqs[i].pop(0)])
+    return dict(kind="mcomp", seed=rng.randrange(10**6), n=n, ops=out)
+
+
 E2E_CORPUS = [
+    # TWO wormholes of one process hold each other's numbers: B is handed A's phase 1 first (held), then A gets B's
+    # phase 0 — A's cursor reaches 1 while B holds a 1 (the in-process pair of the test-suite, with a reordering server)
+    cross_case(1, 2, 0, [(1, "1"), (0, "0")], [False, False]),
+    cross_case(1, 2, 1, [(1, "1"), (0, "dilate-0"), (0, "0"), (0, "1"), (1, "dilate-0"), (1, "0")], [True, False]),
+    # two PAIRS in one process: a number held in one pair while the cursors of the other pair pass it
+    cross_case(2, 2, 1, [(3, "1"), (0, "0"), (0, "1"), (2, "dilate-0"), (1, "1"), (2, "0"), (1, "0"), (3, "0")],
+               [False, True, True, False]),
+    cross_case(2, 3, 2, [(0, "2"), (2, "dilate-1"), (1, "0"), (3, "0"), (1, "1"), (3, "1"), (1, "2"), (3, "2"),
+                         (1, "dilate-0"), (1, "dilate-1"), (3, "dilate-0"), (3, "dilate-1")], [False, False, False, False]),
     # the peer's numbered phases overtake its `version`
     early_case(["0", "version", "1"], [False, False]),
     early_case(["1", "0", "version"], [True, True]),
@@ -1337,11 +1798,24 @@ def cases(rng, tier):
     out.extend(E2E_CORPUS)        # whole-client witnesses first: a violation is reported with a two-client replay
     for i, ops in enumerate(COMP_CORPUS):
         out.append(dict(kind="comp", seed=i, ops=ops))
+    out.extend(MCOMP_CORPUS)
     m = 1 if tier == "quick" else 12
     for i in range(140 * m):
         out.append(dict(kind="comp", seed=rng.randrange(10**6), ops=gen_comp(rng, adversarial=(i % 3 == 2))))
-    for i in range(150 * m):
+    for i in range(40 * m):
+        out.append(gen_mcomp(rng))
+    for i in range(125 * m):
         out.append(gen_e2e(rng, tier))
+    for i in range(14 * m):
+        out.append(gen_e2e(rng, tier, npairs=2))       # two pairs (four wormholes) in the one process
+    for i in range(1 * m):
+        out.append(gen_e2e(rng, tier, npairs=3))
+    for i in range(24 * m):
+        out.append(gen_cross(rng))
+    if tier == "thorough":
+        # one pair, 2 numbered + 1 dilate each way: ALL global hand-over orders
+        for seq in itertools.permutations(cross_items(1, 2, 1)):
+            out.append(cross_case(1, 2, 1, list(seq), [False, True]))
     orders = list(itertools.permutations(["version", "0", "1", "2"]))
     if tier == "thorough":
         for o in orders:
@@ -1408,6 +1882,8 @@ def cases(rng, tier):
 def run_case(case):
     if case["kind"] == "comp":
         return run_comp(case)
+    if case["kind"] == "mcomp":
+        return run_mcomp(case)
     return run_e2e(case)
 
 
@@ -1418,6 +1894,14 @@ def search(rng, seconds, seeds):
         if c.get("kind") == "e2e":
             yield c, run_case(c)
     for c in E2E_CORPUS:
+        yield c, run_case(c)
+    for c in MCOMP_CORPUS:
+        yield c, run_case(c)
+    for seq in itertools.permutations(cross_items(1, 2, 0)):
+        c = cross_case(1, 2, 0, list(seq), [False, True])
+        yield c, run_case(c)
+    for _ in range(12):
+        c = gen_cross(rng, npairs=2)
         yield c, run_case(c)
     for nmsg in (3, 5):
         for nget in (2, 3):
@@ -1456,7 +1940,7 @@ def search(rng, seconds, seeds):
 
 
 def shrink(case):
-    if case.get("kind") != "e2e":
+    if case.get("kind") not in ("e2e", "mcomp"):
         return
     ops = case["ops"]
     n = len(ops)
